@@ -109,6 +109,13 @@ TEMPLATES = [
          cands=[("azi", "A", "P"), ("dist", "A", "P"), ("azi", "P", "B"), ("dist", "B", "P"), ("azi", "B", "P"),
                 ("dir", "A", "B"), ("dir", "A", "P")],
          pred=_noncol(("A", "B", "P"))),
+    # a station that sees 4 / 5 known points and carries a polar point: the circle zero additionally runs
+    # through the split modes (orientation shift exactly 200 / 0 gon, readings +-1e-9 gon, n06_net.split_modes)
+    dict(name="orient", dim=2, roles=[("A", "fix"), ("B", "fix"), ("C", "fix"), ("D", "fix"), ("E", "fix"), ("F", "fix"), ("P", "new")],
+         cands=[("dir", "A", "B"), ("dir", "A", "C"), ("dir", "A", "D"), ("dir", "A", "E"), ("dir", "A", "F"), ("dir", "A", "P"),
+                ("dist", "A", "P"), ("dist", "B", "P")],
+         pred=lambda I: True, zsplit=True,
+         fixed=dict(A=(100, 100), B=(0, 0), C=(200, 0), D=(200, 200), E=(0, 200), F=(100, 0), P=(0, 100))),
     # chains of mechanisms: a levelling line Q-R-S that reaches a known height only through Q, whose
     # height is trigonometric (zenith angles from A, B; xy of Q, R, S fixed) ...
     dict(name="levtrig", dim=3, roles=[("A", "fix"), ("B", "fix"), ("Q", "newz"), ("R", "newz"), ("S", "newz")],
@@ -164,7 +171,7 @@ TIERS = {
               ("polar3d", 1, 8), ("polar3d-ih", 1, 8), ("polar3d-ihneg", 1, 8),
               ("free3d-ihneg", 1, 7),
               ("tower3d-ihneg", 1, 8), ("tower3d-ihpos", 1, 8), ("towerst-ihneg", 1, 7), ("towerst-ihpos", 1, 7), ("traverse", 1), ("trig3d", 1, 8), ("vecmix", 1, 6),
-              ("azi3d", 1, 7), ("levtrig", 1, 7), ("levvec", 1, 6),
+              ("azi3d", 1, 7), ("levtrig", 1, 7), ("levvec", 1, 6), ("orient", 1),
               ("aziframe", 1, 5, {"frames": HALF, "idrev": IDS}),
               ("polar", 1, None, {"frames": [("sw", "left-handed"), ("en", "right-handed"), ("nw", "left-handed")]})],
     "thorough": [("polar", 4), ("intersection", 3), ("resection", 3), ("traverse", 2), ("polar2", 1), ("coords", 1),
@@ -172,7 +179,7 @@ TIERS = {
                  ("polar3d-ihmix", 1), ("polar3d-ihneg", 1), ("polar3d-ihpos", 1), ("free3d", 1), ("free3d-ihneg", 1),
                  ("free3d-ihpos", 1), ("tower3d", 1), ("tower3d-ihneg", 1), ("tower3d-ihpos", 1), ("towerst-ihneg", 1),
                  ("towerst-ihpos", 1), ("trig3d", 1), ("trig3d-ih", 2), ("chain3d", 1), ("traverse3", 1), ("vecmix", 1),
-                 ("azi3d", 2), ("levtrig", 2), ("levvec", 1),
+                 ("azi3d", 2), ("levtrig", 2), ("levvec", 1), ("orient", 1), ("orient", 1, None, {"frames": [("en", "right-handed"), ("sw", "right-handed")]}),
                  ("aziframe", 1, None, {"frames": ALLF, "idrev": IDS}),
                  ("polar", 1, None, {"frames": ALLF[1:]}), ("azi3d", 1, None, {"frames": HALF[1:5], "idrev": [True]}),
                  ("intersection", 1, None, {"frames": HALF[1:], "idrev": IDS}),
@@ -183,6 +190,7 @@ TIERS = {
 
 def placements(t):
     roles = [r[0] for r in t["roles"]]
+    if "fixed" in t: return [dict(t["fixed"])]
     out = []
     if t["dim"] == 1:
         return [dict((r, (0, 0)) for r in roles)]
@@ -245,6 +253,7 @@ def make_unit(name, j, n, nc=None, frame=None, idrev=False):
         else: cands.append((c[0],) + tuple(rn(v) for v in c[1:]))
     u = Unit(name, t["dim"], pts, cands)
     u.placement = (j, n, idx, M)
+    u.zsplit = bool(t.get("zsplit"))
     if frame: u.frame = tuple(frame)
     u.idrev = bool(idrev)
     return u
